@@ -4,6 +4,7 @@
 import FqeVerif.Driver.Parse
 import FqeVerif.Model.Maps
 import FqeVerif.Model.Cirq
+import FqeVerif.Model.Sectors
 namespace Driver
 open Fock Model
 
@@ -104,6 +105,26 @@ def cmd (name : String) : P String := do
       let x ← vec
       let m := x.fold (fun (acc : Rat) _ c => if acc < c.normSq then c.normSq else acc) 0
       return GQ.ratToString m
+  -- Model: sector bookkeeping
+  | "alphabeta" => do
+      let nele ← int; let ms ← int; let norb ← int
+      match alphaBeta nele ms norb with
+      | none => return "raise"
+      | some (na, nb) => return s!"{na} {nb}"
+  | "fixedn" => do
+      let nele ← int; let norb ← int
+      let l := fixedNSectors nele norb
+      return " ".intercalate (toString l.length :: l.map (fun (n, s) => s!"{n} {s}"))
+  | "fixedsz" => do
+      let sz ← int; let norb ← int
+      let l := fixedSzSectors sz norb
+      return " ".intercalate (toString l.length :: l.map (fun (n, s) => s!"{n} {s}"))
+  | "trsign" => do
+      let na ← nat; let nb ← nat
+      return toString (b2n (timeRevSign na nb))
+  | "binom" => do
+      let n ← nat; let k ← nat
+      return toString (binom n k)
   | _ => throw s!"unknown command {name}"
 
 def handle (line : String) : String :=
